@@ -169,6 +169,16 @@ func (p *Program) intrinsic(name string, fn *ssa.Function) (intrinsicFn, bool) {
 	if ok {
 		return h, true
 	}
+	if target, ok := redirects[name]; ok {
+		for _, sp := range p.pkgs {
+			if !strings.HasPrefix(sp.Pkg.Path(), repoMod) {
+				continue
+			}
+			if tf, ok := sp.Members[target].(*ssa.Function); ok && tf.Blocks != nil {
+				return func(e *Exec, g *G, a []Value) Value { return tailCall{fn: &FuncV{Fn: tf}, args: a} }, true
+			}
+		}
+	}
 	if vn, isV := verifName(fn); isV {
 		if h, ok := p.intr[vn]; ok {
 			return h, true
@@ -195,6 +205,15 @@ func (p *Program) hasIntrinsic(name string, fn *ssa.Function) bool {
 // globals
 
 type Poison struct{ why string }
+
+// redirects: environment entry points that a harness may model in Go. The symbolic run calls the
+// harness function instead of the real one; the native replay rewrites the same call sites in an
+// overlay copy of the package sources (replay.go), so both runs use the same model.
+var redirects = map[string]string{
+	"net.ListenPacket": "verifListenPacket",
+	"net.ListenTCP":    "verifListenTCP",
+	"os.ReadFile":      "verifReadFile",
+}
 
 func (e *Exec) global(g *ssa.Global) *Cell {
 	if c, ok := e.globals[g]; ok {
